@@ -156,9 +156,9 @@ def run_children(binary, args_for_range, n_items, scratch, procs=None, per_item_
     results = [None] * n_items
     if n_items == 0:
         return results
-    # a child handles at most 150 items: worlds leave garbage behind (chain DBs on memory storage,
+    # a child handles at most 60 items: worlds leave garbage behind (chain DBs on memory storage,
     # abandoned goroutines of crashed instances) and a long-lived child grows without bound
-    chunk = max(1, min((n_items + procs - 1) // procs, 150))
+    chunk = max(1, min((n_items + procs - 1) // procs, 60))
     pending = [(a, min(a + chunk, n_items)) for a in range(0, n_items, chunk)]
     running = []
 
